@@ -20,10 +20,11 @@ W1p5  == <<16376, 0, 0, 0>>
 W2p31 == <<16864, 0, 0, 0>>
 W2p53 == <<17216, 0, 0, 0>>
 W65539 == <<16624, 48, 0, 0>>            \* 65539 = 0x10003
+W1e30 == <<17961, 15961, 14752, 36074>>   \* 1e30
 NumGrid == {WNaN, WPosInf, WNegInf, WOfInt(-1), WPosZero, WNegZero, WOfInt(1), WOfInt(2), WOfInt(3), WOfInt(4),
-            WOfInt(6), WOfInt(7), WOfInt(17), WOfInt(65), WOfInt(65535), WOfInt(65536), WOfInt(65601), WOfInt(-65), WHalf, WNeg(WHalf), W1p5, WNeg(W1p5), W2p31, WNeg(W2p31), W2p53, WOfInt(-2), WOfInt(-7)}
+            WOfInt(6), WOfInt(7), WOfInt(17), WOfInt(65), WOfInt(65535), WOfInt(65536), WOfInt(65601), WOfInt(-65), WHalf, WNeg(WHalf), W1p5, WNeg(W1p5), W2p31, WNeg(W2p31), W2p53, WOfInt(-2), WOfInt(-7), W1e30}
 W1p5neg == WNeg(W1p5)
-QuickNumGrid == {WNaN, WPosInf, WNegInf, WOfInt(-1), WPosZero, WOfInt(1), WOfInt(3), WOfInt(6), WHalf, WNeg(WHalf), W1p5neg, W2p31, WOfInt(-2)}
+QuickNumGrid == {WNaN, WPosInf, WNegInf, WOfInt(-1), WPosZero, WOfInt(1), WOfInt(3), WOfInt(6), WHalf, WNeg(WHalf), W1p5neg, W2p31, WOfInt(-2), W1e30}
 IndexArgs(q) == {Undef, Null, VBool(TRUE), VStr(U("1")), VStr(U("x")), VStr(<<>>), VObj(<<>>), VArr(<<>>)}
                   \cup {VNumW(w) : w \in (IF q THEN QuickNumGrid ELSE NumGrid)}
 TextArgs(q) == {Undef, Null, VBool(FALSE), VStr(<<>>), VStr(U("a")), VStr(U("b")), VStr(U("bc")), VStr(U("abc")),
@@ -34,7 +35,7 @@ TemplArgs(q) == {Undef, Null, VStr(<<>>), VStr(U("x")), VStr(U("$&")), VStr(U("$
                  \cup (IF q THEN {} ELSE {VStr(U("$$$$")), VStr(U("$$&")), VStr(U("$&$")), VStr(U("$01")), VBool(TRUE), VStr(U("-$'-$&-"))})
 ArgsAt(m, i, q) == IF i \in IndexPos(m) THEN IndexArgs(q) ELSE IF i \in TextPos(m) THEN TextArgs(q)
                    ELSE IF i \in TemplPos(m) THEN TemplArgs(q)
-                   ELSE IF m = "[]" THEN {VNumW(w) : w \in NumGrid \ {WNegZero}} ELSE {}
+                   ELSE IF m = "[]" THEN {VNumW(w) : w \in NumGrid \ {WNegZero}} \cup {VStr(u) : u \in IndexKeyTexts} ELSE {}
 ArgVectors(m, q) ==
   {<<>>} \cup (IF Arity(m) >= 1 THEN {<<x>> : x \in ArgsAt(m, 1, q)} ELSE {})
          \cup (IF Arity(m) >= 2 THEN {<<x, y>> : x \in ArgsAt(m, 1, q), y \in ArgsAt(m, 2, q)} ELSE {})
